@@ -161,7 +161,7 @@ def run(tier, seed):
         cases.append({"cid": i, "text": l["text"], "formats": [list(x) for x in l["formats"]], "kinds": sorted(l["kinds"]),
                       "lang": l["lang"], "entry": l["entry"]})
     B = 40
-    tasks = [{"id": str(b), "op": "generate_batch", "cases": cases[b:b + B], "timeout": 60 + 3 * B}
+    tasks = [{"id": str(b), "op": "generate_batch", "cases": cases[b:b + B], "timeout": 240 + 6 * B}
              for b in range(0, len(cases), B)]
     nat = Pool().run(tasks)
     vio, outcomes = [], {}
@@ -209,7 +209,7 @@ def run(tier, seed):
     cov["legal_iteration_orders_formats_compared"] = sn
     cov["traces_validated_against_impl"] += sn
     return {"violations": vio, "coverage": cov,
-            "assumptions": ["'never hangs' is a per-request wall-clock limit, not a termination proof of the search",
+            "assumptions": ["'never hangs' is a per-request limit on the CPU time of the generating process (20 s; a request normally takes well under 1 s), not a termination proof of the search",
                             "gcc -std=c11 -fsyntax-only with <stdint.h>, <stdlib.h> and the repository's published header"]}
 
 
